@@ -124,7 +124,13 @@ func TestC07_HCLDec(t *testing.T) {
 		func(c *hx.Case) {
 			t := c.T
 			sc := gen.DrawScope(t, gen.ScopeOpts{Nulls: 10})
-			ms := gen.DrawSpec(t, gen.SpecOpts{Depth: 2, AttrNames: specAttrPool, BlockTypes: specBlockPool, BlockBias: 20})
+			var exprVars []string
+			for _, n := range sc.Names {
+				if plainIdent.MatchString(n) && !reservedName[n] {
+					exprVars = append(exprVars, n)
+				}
+			}
+			ms := gen.DrawSpec(t, gen.SpecOpts{Depth: 2, AttrNames: specAttrPool, BlockTypes: specBlockPool, BlockBias: 20, ExprVars: exprVars})
 			c.Set("spec", ms.Dump())
 			kinds := map[string]bool{}
 			specKinds(ms, kinds)
@@ -139,6 +145,27 @@ func TestC07_HCLDec(t *testing.T) {
 			c.Set("body", dump)
 			c.Set("scope", scopeDump(sc))
 			free := ast.FreeVarsBody(tree)
+			// (an ExprSpec brings its own expression, evaluated in the caller's context)
+			var exprSpecVars func(s *gen.SpecM)
+			exprSpecVars = func(s *gen.SpecM) {
+				if s == nil {
+					return
+				}
+				if s.Kind == gen.SExpr {
+					free[s.ExprVar] = true
+					c.Class("spec_has_ExprSpec")
+				}
+				exprSpecVars(s.Nested)
+				exprSpecVars(s.Primary)
+				exprSpecVars(s.Default)
+				for _, f := range s.Fields {
+					exprSpecVars(f)
+				}
+				for _, e := range s.Elems {
+					exprSpecVars(e)
+				}
+			}
+			exprSpecVars(ms)
 			c.Set("free_vars_of_tree", setString(free))
 			spec := toHCLDec(ms)
 			proper, some := false, false
